@@ -211,6 +211,11 @@ def correspondence(ctx, violations, known_hits):
     def limited():
         signal.signal(signal.SIGXFSZ, signal.SIG_IGN)
         resource.setrlimit(resource.RLIMIT_FSIZE, (1024, 1024))
+    # what the MODEL (CliWrite.outcome_of, theorems C08_kinds / C08_truncated_iff) says for each kind of destination and fault
+    KIND = {"absent": 0, "existing": 1, "existing-longer": 1, "link-to-existing": 2, "long-name-absent": 0, "long-name-existing": 1, "dangling-link": 3}
+    def model_outcome(dk, stop):
+        r = ctx.run_model(["WRITE %x 0 0 %x %x 0 0" % (KIND[dk], 1 if stop else 0, stop or 0)], tag="c08w")[0][0]
+        return [int(x, 16) for x in r.split()]
     longname = "n" * 245 + ".lc3"          # the destination's own name is legal (<= 255 bytes); a name derived from it by adding to it is not
     for dk in ("absent", "existing", "existing-longer", "link-to-existing", "long-name-absent", "long-name-existing"):
         sub = os.path.join(d, "fsize-" + dk); os.makedirs(sub, exist_ok=True)
@@ -235,6 +240,9 @@ def correspondence(ctx, violations, known_hits):
         ev += 1
         sigs.add(("fsize-limit", dk, p.returncode == 0))
         want_left = sorted(["p.asm"] + ([] if dk.endswith("absent") else [name]) + (["real.bin"] if dk == "link-to-existing" else []))
+        mo = model_outcome(dk, 1024)
+        if mo[0] != 3:
+            raise RuntimeError("C08 fault stage: the model's outcome for %s under a cut-off write is %r, WTempFail (3) expected by design" % (dk, mo))
         good = p.returncode != 0 and after == before and left == want_left and (dk != "link-to-existing" or os.path.islink(dest))
         if not good:
             nv += 1
@@ -261,6 +269,9 @@ def correspondence(ctx, violations, known_hits):
         ev += 1
         sigs.add(("no-fault", dk, p.returncode == 0))
         want_left = sorted(["p.asm", name] + (["real.bin"] if "link" in dk else []))
+        mo = model_outcome(dk, None)
+        if mo[0] != 0:
+            raise RuntimeError("C08 no-fault stage: the model's outcome for %s is %r, WOk (0) expected" % (dk, mo))
         good = p.returncode == 0 and after == bytes.fromhex("300010 21f025".replace(" ", "")) and left == want_left and ("link" not in dk or os.path.islink(dest))
         if not good:
             nv += 1
